@@ -270,11 +270,36 @@ def load_known():
         return {}
     with open(p) as fh:
         data = json.load(fh)
-    known = {}
+    known = KnownFindings()
     for f in data.get("findings", []):
         if f.get("status") == "open":
-            known[(f["property"], f["key"])] = f
+            if "key_regex" in f:
+                known.regex.append((f["property"], re.compile(f["key_regex"]), f))
+            else:
+                known[(f["property"], f["key"])] = f
     return known
+
+
+class KnownFindings(dict):
+    """(property, obligation key) -> finding; an entry may instead carry key_regex naming one family of
+    failing inputs (e.g. the same defect seen at every position of a signature sweep)."""
+
+    def __init__(self):
+        super().__init__()
+        self.regex = []
+
+    def __contains__(self, pk):
+        if dict.__contains__(self, pk):
+            return True
+        return any(p == pk[0] and r.match(pk[1]) for p, r, f in self.regex)
+
+    def __getitem__(self, pk):
+        if dict.__contains__(self, pk):
+            return dict.__getitem__(self, pk)
+        for p, r, f in self.regex:
+            if p == pk[0] and r.match(pk[1]):
+                return f
+        raise KeyError(pk)
 
 
 # ----------------------------------------------------------------------------------------
@@ -338,9 +363,13 @@ class Check:
             elif o["status"] == "mismatch":
                 mism.append(o)
         proved = [o for o in self.obl if o["status"] == "proved"]
+        seen_f = {}
         for o in known_hit:
             f = self.known[(self.pid, o["key"])]
-            print("KNOWN-FINDING: property=%s %s [%s]" % (self.pid, f.get("what", ""), o["key"]))
+            seen_f.setdefault(id(f), (f, []))[1].append(o["key"])
+        for f, keys in seen_f.values():
+            print("KNOWN-FINDING: property=%s %s [%s%s]" % (self.pid, f.get("what", ""), keys[0],
+                                                            " and %d more queries of this family" % (len(keys) - 1) if len(keys) > 1 else ""))
         for o in viol:
             print("VIOLATION property=%s replay=%s  # %s: %s" % (self.pid, o.get("replay") or "-",
                                                                   o["key"], o["detail"][:300]))
